@@ -12,6 +12,14 @@ CLAIMED = {
          "Rule conformance over every enumerated write site of Fiber.coords/Fiber.payloads: an inductive-invariant case split re-derived from the current source; each case discharged by an accepted idiom. Decides the structural clauses (pairing, boxing, sorted insertion / monotone append / guarded replace / re-sort, reject-before-write) for all inputs at once; does not decide leaf-depth uniformity or partition order inside splitters.",
          "Trusts: Python semantics of list operations and bisect; asserts execute (no python -O); updateCoords callbacks injective; typing tables of sa/types.py (validated against the source on every run).",
          "DESIGN.md section 3, C01"),
+ "C02": ("custom ownership/registration checker: who-may-write Rank.fibers, registration<->insertion flow (CFG reachability), removal<->deregistration pairing, setOwner site classification, rebuild completeness",
+         "Rule conformance over every enumerated write of Rank.fibers, every caller of Rank.append/pop/clearFibers, every _createDefault/_instantiateDefault call site, every payload-dropping write in the mutators C02 quantifies over, and every setOwner call site. Decides that each edge creation on an owned fiber is matched by a registration (and vice versa) on every CFG path; does not decide that pop() removes the right fiber at run time (asserted in the code).",
+         "Trusts: statement-level CFG (exceptions only from raise/assert/try bodies); structural guards; the frozen caller tables in sa/rules/c02.py; correlated branches on never-assigned flags take the same direction.",
+         "DESIGN.md section 3, C02"),
+ "C10": ("interprocedural write-effect, alias and holds analysis (summaries to a fix-point over the resolved call graph, lazy-iterator edges, flag constant propagation)",
+         "Effect/escape analysis: for each of ~90 observers the transitive tree/rank write effect on parameter-rooted objects must be empty; for each of 30 value-returning operations every write must hit fresh/deep-copied objects, the result must be fresh and hold nothing rooted at an operand; copy hooks and default hand-out checked structurally. Sound for all inputs up to the stated typing over-approximation (unresolved receivers are reported as ANALYSIS-ERROR when they decide a verdict).",
+         "Trusts: receiver typing tables (validated each run), opaque user callbacks excluded, pickle round trip is a deep copy, flow-insensitive field abstraction ('sub' roots tagged by first-level field).",
+         "DESIGN.md section 3, C10"),
 }
 
 NOT_APPLICABLE = {
